@@ -707,6 +707,15 @@ func (x *Exec) simple(st *State, fr *Frame, in ssa.Instruction) bool {
 		return true
 	case *ssa.MakeClosure:
 		fn := in.Fn.(*ssa.Function)
+		// a method value (c.writeOnce) handed to someone else to run: the method's own contract
+		// belongs to what is being relied on
+		if strings.HasSuffix(fn.Name(), "$bound") {
+			if m, ok := fn.Object().(*types.Func); ok {
+				if mf := x.prog.FuncValue(m); mf != nil && x.cs.Funcs[fnKey(mf)] != nil {
+					x.used[fnKey(mf)] = true
+				}
+			}
+		}
 		var binds []*Val
 		for _, b := range in.Bindings {
 			binds = append(binds, x.operand(st, fr, b))
